@@ -35,7 +35,15 @@ sharing the guard object ("same") or with its own ("own": scripted stub, or a re
 Guard over "gspec").  Every instance that is entered is one call of the model: its
 input scope is the scope as it received it (entries that are its own guard object
 are told apart from other objects by identity), its downstream's failure is the way
-the next instance ended.
+the next instance ended.  A case may place the library's other ASGI pieces around the instances — "pre": pieces
+directly outside an instance (the case's own, or an "outer" layer's), "inner": pieces between the case's instance and
+the application, outermost first; a piece is {"k": "trace"[, "header": name]} = rbacx.adapters.asgi_logging.
+TraceIdMiddleware or {"k": "accesslog"} = rbacx.adapters.asgi_accesslog.AccessLogMiddleware — and may set ambient
+request state: "ambient": {"trace_id": s} = the caller did rbacx.logging.context.set_current_trace_id(s) before
+calling the application.  None of this is an input of the model: the instance must behave as it does bare.  With
+pieces outside an instance its messages are observed at its own boundary (a recording shim between the piece and the
+instance hands it a send that records, then forwards), so what the outer pieces add on the way out is excluded by
+construction, not by filtering header names; "wire" in a result is what reached the server.
 Observables (per instance call): the ordered trace of build_env / evaluate_async /
 send / downstream calls with their arguments (scope content at that moment, identity
 of receive/send, the four builder objects, which guard was consulted, message
@@ -268,10 +276,11 @@ def layer_specs(case):
     for l in case.get("outer") or []:
         out.append({"mode": l["mode"], "add_headers": l["add_headers"], "builder": l["builder"],
                     "guard": l.get("guard", "own"), "eval": l.get("eval"), "gspec": l.get("gspec"),
-                    "request": l.get("request"), "expect_allowed": l.get("expect_allowed"), "init": l.get("init")})
+                    "request": l.get("request"), "expect_allowed": l.get("expect_allowed"), "init": l.get("init"),
+                    "pre": l.get("pre") or []})
     out.append({"mode": case["mode"], "add_headers": case["add_headers"], "builder": case["builder"],
                 "guard": "primary", "eval": case.get("eval"), "gspec": case.get("guard"), "request": None,
-                "init": case.get("init"),
+                "init": case.get("init"), "pre": case.get("pre") or [],
                 "expect_allowed": (case.get("guard") or {}).get("expect_allowed")})
     return out
 
@@ -308,6 +317,9 @@ class _Layer:
         self.end = None
         self.mw = None
         self.build_env = None
+        self.recv_in = None      # the receive / send callables this instance was called with
+        self.send_in = None
+        self.down_exc = None     # class of the exception its downstream call ended with (None: returned / not called)
 
 
 class _Run:
@@ -320,6 +332,9 @@ class _Run:
         self.named_objs = {}
         self.idmap = {}
         self.msgs = []
+        self.fly = 0             # > 0 while a message already recorded at an instance's boundary travels outwards
+        self.wire = []           # what reached the server's send (after the outer pieces' own additions)
+        self.stray = []          # messages sent while no instance of the middleware was executing
 
     def cur(self):
         return self.layers[self.active[-1]]
@@ -360,9 +375,13 @@ async def run_impl(case):
     entered (its own input scope, its observation, the evaluation outcome handed to the model)."""
     from rbacx.adapters.asgi import RbacxMiddleware
 
+    from rbacx.logging import context as _logctx
+
     run = _Run()
     specs = layer_specs(case)
     n = len(specs)
+    has_env = bool(case.get("inner") or case.get("ambient") or any(sp.get("pre") for sp in specs))
+    _logctx.clear_current_trace_id()     # every case starts with no request id in force (all cases share one task)
     gspec = case.get("guard")
     primary = _real_guard(gspec, 0) if gspec else StubGuard(run, case["eval"])
     run.objs.append(primary)
@@ -470,10 +489,22 @@ async def run_impl(case):
     async def receive():
         return {"type": "http.request", "body": b"", "more_body": False}
 
-    async def send(m):
+    def record(m):
+        """a message is recorded where it leaves the instance of the middleware that sent it: at the server's send,
+        or — when other pieces sit between that instance and the server — at the instance's own boundary."""
+        if run.fly:
+            return
         cm = _canon_msg(m)
-        run.cur().events.append(["send", SEND_ID, cm])
+        if run.active:
+            run.cur().events.append(["send", SEND_ID, cm])
+        else:
+            run.stray.append(cm)
         run.msgs.append(cm)
+
+    async def send(m):
+        record(m)
+        if has_env:
+            run.wire.append(_canon_msg(m))
         k = nsend[0]
         nsend[0] += 1
         sf = case.get("send_fail")
@@ -482,12 +513,8 @@ async def run_impl(case):
 
     final_apps = [0]
 
-    async def app(sc, rv, sd):
-        L = run.layers[-1]
+    async def final_app(sc, rv, sd):
         final_apps[0] += 1
-        L.events.append(["app", run.snap(sc, L.guard), RECV_ID if rv is receive else -1, SEND_ID if sd is send else -1])
-        if sc is not scope:
-            L.extra["app_scope_not_same_object"] = True
         await asyncio.sleep(0)
         if case.get("app_exc"):
             raise EXC[case["app_exc"]]("scripted downstream failure")
@@ -495,6 +522,7 @@ async def run_impl(case):
     async def enter(i, sc, rv, sd):
         L = run.layers[i]
         L.entered = True
+        L.recv_in, L.send_in = rv, sd
         L.entry = run.snap(sc, L.guard)
         run.active.append(i)
         try:
@@ -509,15 +537,66 @@ async def run_impl(case):
             run.active.pop()
             L.scope_after = run.snap(sc, L.guard)
 
-    def mk_shim(i):
+    def mk_piece(p, inner):
+        """one of the library's other ASGI pieces, constructed as documented."""
+        if p["k"] == "trace":
+            from rbacx.adapters.asgi_logging import TraceIdMiddleware
+            if p.get("header") is None:
+                return TraceIdMiddleware(inner)
+            return TraceIdMiddleware(inner, header_name=p["header"].encode("latin-1"))
+        if p["k"] == "accesslog":
+            from rbacx.adapters.asgi_accesslog import AccessLogMiddleware
+            return AccessLogMiddleware(inner)
+        raise ValueError("unknown piece %r" % (p,))
+
+    def wrap_pieces(pieces, inner):
+        for p in reversed(pieces or []):
+            inner = mk_piece(p, inner)
+        return inner
+
+    def mk_boundary(i):
+        """what is directly outside instance i.  With other pieces outside it: a recording shim — the instance is
+        called with a send of its own, which records the message as the instance sent it and then forwards it, so
+        that what the outer pieces add on the way out (their own headers) is not attributed to the middleware."""
         L = run.layers[i]
+        if not L.spec.get("pre"):
+            async def plain(sc, rv, sd):
+                await enter(i, sc, rv, sd)
+            return plain
+
+        async def boundary(sc, rv, sd):
+            async def bsend(m):
+                record(m)
+                run.fly += 1
+                try:
+                    await sd(m)
+                finally:
+                    run.fly -= 1
+            await enter(i, sc, rv, bsend)
+        return boundary
+
+    def mk_shim(i):
+        """the downstream application of instance i: records the call, then runs what is really below — the pieces
+        directly outside the next instance and that instance, or (last instance) the case's "inner" pieces and the
+        application at the bottom."""
+        L = run.layers[i]
+        if i == n - 1:
+            nxt = wrap_pieces(case.get("inner"), final_app)
+        else:
+            nxt = wrap_pieces(run.layers[i + 1].spec.get("pre"), mk_boundary(i + 1))
 
         async def shim(sc, rv, sd):
-            L.app_snap = run.snap(sc, L.guard)
-            L.events.append(["app", L.app_snap, RECV_ID if rv is receive else -1, SEND_ID if sd is send else -1])
+            snap = run.snap(sc, L.guard)
+            if i < n - 1:
+                L.app_snap = snap
+            L.events.append(["app", snap, RECV_ID if rv is L.recv_in else -1, SEND_ID if sd is L.send_in else -1])
             if sc is not scope:
                 L.extra["app_scope_not_same_object"] = True
-            await enter(i + 1, sc, rv, sd)
+            try:
+                await nxt(sc, rv, sd)
+            except BaseException as e:  # noqa: BLE001
+                L.down_exc = type(e).__name__
+                raise
         return shim
 
     def mk_stale_builder(L):
@@ -530,7 +609,7 @@ async def run_impl(case):
     for i in range(n - 1, -1, -1):
         L = run.layers[i]
         sp = L.spec
-        app_i = app if i == n - 1 else mk_shim(i)
+        app_i = mk_shim(i)
         cur = {"guard": L.guard, "mode": sp["mode"], "build_env": mk_builder(L), "add_headers": sp["add_headers"]}
         init = sp.get("init")
         if not init:
@@ -580,9 +659,14 @@ async def run_impl(case):
             pending.append((L, {k: cur[k] for k in ("guard", "mode", "build_env", "add_headers")
                                 if k == "build_env" and "builder" in init or k == "guard" and init.get("guard") == "other"
                                 or k in init}))
+    top = wrap_pieces(specs[0].get("pre"), mk_boundary(0))
+    amb_token = None
+    if (case.get("ambient") or {}).get("trace_id") is not None:
+        # ambient request state: the caller set a request id through the public API before calling the application
+        amb_token = _logctx.set_current_trace_id(case["ambient"]["trace_id"])
     if case.get("warmup"):               # a request served before the attributes are reassigned; not judged
         try:
-            await enter(0, make_scope(), receive, send)
+            await top(make_scope(), receive, send)
         except BaseException:  # noqa: BLE001
             pass
     for L, attrs in pending:
@@ -592,13 +676,17 @@ async def run_impl(case):
         for L in run.layers:
             L.events, L.recorded, L.extra = [], [], {}
             L.entered, L.entry, L.app_snap, L.scope_after, L.end = False, None, None, None, None
-        run.msgs = []
+            L.recv_in, L.send_in, L.down_exc = None, None, None
+        run.msgs, run.wire, run.stray, run.fly = [], [], [], 0
         nsend[0] = 0
         final_apps[0] = 0
     try:
-        await enter(0, scope, receive, send)
+        await top(scope, receive, send)
     except BaseException:  # noqa: BLE001
         pass
+    if amb_token is not None:
+        _logctx.clear_current_trace_id(amb_token)
+    _logctx.clear_current_trace_id()
     for g in real_guards:
         g._verif_hook = None
 
@@ -612,6 +700,8 @@ async def run_impl(case):
             app_exc = case.get("app_exc")
         else:
             app_exc = inner.end[1] if below and inner.end[0] == "raised" else None
+        if has_env:          # other pieces below this instance: the class its downstream call was seen to end with
+            app_exc = L.down_exc
         # an instance whose downstream is another instance: its part of the scope's history ends when it hands over
         obs = {"events": L.events, "scope": L.app_snap if below else L.scope_after, "end": L.end}
         obs.update(L.extra)
@@ -625,7 +715,12 @@ async def run_impl(case):
         units.append({"li": i, "n": n, "view": view, "entry": L.entry, "obs": obs, "es": L.es})
     layers = [{"mode": L.spec["mode"], "add_headers": L.spec["add_headers"], "builder": L.spec["builder"],
                "eval": L.ev, "guard": L.gspec, "es": L.es, "entered": L.entered} for L in run.layers]
-    return {"units": units, "layers": layers, "final_apps": final_apps[0], "msgs": run.msgs}
+    res = {"units": units, "layers": layers, "final_apps": final_apps[0], "msgs": run.msgs}
+    if has_env:
+        res["wire"] = run.wire     # for the reader of a replay: what the server saw after the outer pieces' additions
+    if run.stray:
+        res["sent_outside_any_instance"] = run.stray
+    return res
 
 
 # --------------------------------------------------------------------------
@@ -944,6 +1039,12 @@ def check_cases(chk, cases, replay=False):
         chk.count("fam:" + case.get("fam", "?"))
         chk.count("instances:%d" % len(res["layers"]))
         chk.count("instances_entered:%d" % len(res["units"]))
+        if "wire" in res:
+            pre_all = [p for sp in layer_specs(case) for p in sp["pre"]]
+            chk.count("env:pieces_outside_an_instance:%d" % len(pre_all))
+            chk.count("env:pieces_below:%d" % len(case.get("inner") or []))
+            chk.count("env:trace_id_middleware_outside:%s" % any(p["k"] == "trace" for p in pre_all))
+            chk.count("env:caller_set_request_id:%s" % ("ambient" in case))
         judge_direct(chk, case, res, already=res.get("_filed", False))
 
 
@@ -1116,6 +1217,9 @@ def gen_hostile(chk, n):
                 outer.append(l)
             case["outer"] = outer
             case["fam"] = "hostile:stacked"
+        if rng.random() < 0.1:                        # inside other library pieces / under an ambient request id
+            _rand_env(rng, case)
+            case["fam"] = "hostile:ambient"
         yield case
 
 
@@ -1474,6 +1578,151 @@ def gen_guard_challenges(chk):
                "eval": None, "send_fail": None, "app_exc": None}
 
 
+# ---- the middleware inside the library's other ASGI pieces / under ambient request state
+TRACE, ACCESSLOG = {"k": "trace"}, {"k": "accesslog"}
+TRACE_CORR = {"k": "trace", "header": "X-Correlation-ID"}
+TRACEPARENT = b"00-4bf92f3577b34da6a3ce929d0e0e4736-00f067aa0ba902b7-01"
+
+
+def env_shapes():
+    """name -> (pieces directly outside the instance, outermost first; pieces between the instance and the
+    application): TraceIdMiddleware (asgi_logging.py) and AccessLogMiddleware (asgi_accesslog.py) in both nesting
+    orders, doubled, with a custom header name, inside instead of outside, and none at all (ambient state only)."""
+    return {
+        "trace>mw": ([TRACE], []), "accesslog>mw": ([ACCESSLOG], []),
+        "trace>accesslog>mw": ([TRACE, ACCESSLOG], []), "accesslog>trace>mw": ([ACCESSLOG, TRACE], []),
+        "trace>trace>mw": ([TRACE, TRACE], []), "trace(corr)>mw": ([TRACE_CORR], []),
+        "trace>trace(corr)>mw": ([TRACE, TRACE_CORR], []),
+        "mw>trace": ([], [TRACE]), "mw>accesslog": ([], [ACCESSLOG]), "mw>trace>accesslog": ([], [TRACE, ACCESSLOG]),
+        "trace>mw>trace": ([TRACE], [TRACE]), "accesslog>mw>trace": ([ACCESSLOG], [TRACE]),
+        "trace>accesslog>mw>accesslog": ([TRACE, ACCESSLOG], [ACCESSLOG]),
+        "mw": ([], []),
+    }
+
+
+def inbound_id_headers(long_n=600):
+    """name -> request header list: with / without an inbound request id (X-Request-ID in several spellings and with
+    hostile values, W3C traceparent, both, a custom correlation header)."""
+    U = USUAL_HEADERS[:2]
+    return {
+        "none": list(U),
+        "x-request-id": U + [(b"x-request-id", b"req-42")],
+        "X-Request-ID": U + [(b"X-Request-ID", b"REQ-43")],
+        "traceparent": U + [(b"traceparent", TRACEPARENT)],
+        "traceparent+x-request-id": U + [(b"traceparent", TRACEPARENT), (b"x-request-id", b"req-44")],
+        "x-request-id:empty": U + [(b"x-request-id", b"")],
+        "x-request-id:json": U + [(b"x-request-id", b'", "detail": "OK", "x": "')],
+        "x-request-id:Forbidden": U + [(b"x-request-id", b"Forbidden")],
+        "x-request-id:bytes": U + [(b"x-request-id", b"\xff\x00\r\nset-cookie: a=b")],
+        "x-request-id:long": U + [(b"x-request-id", b"r" * long_n)],
+        "x-correlation-id": U + [(b"x-correlation-id", b"corr-7"), (b"x-request-id", b"req-45")],
+        "headers-missing": MISSING,
+    }
+
+
+AMBIENT_IDS = [None, "amb-1", "", "é\"\n}"]
+
+
+def _env_case(fam, pre, inner, amb, headers, b, ev, ah, mode="enforce", t="http", **kw):
+    sc = http_scope("GET", headers) if t == "http" else _scope(t, None if headers == MISSING else {"headers": _hdrs(headers)})
+    c = {"fam": fam, "mode": mode, "add_headers": ah, "scope": sc, "builder": b, "eval": ev, "send_fail": None,
+         "app_exc": None}
+    if pre:
+        c["pre"] = [dict(p) for p in pre]
+    if inner:
+        c["inner"] = [dict(p) for p in inner]
+    if amb is not None:
+        c["ambient"] = {"trace_id": amb}
+    c.update(kw)
+    return c
+
+
+def gen_ambient(chk):
+    """the middleware as one piece of an ASGI stack built from the library's own pieces, and under ambient request
+    state: 14 stack shapes x 12 inbound header lists x a request id set by the caller through
+    rbacx.logging.context {not set, set, empty, hostile} x {deny, deny+headers, allow, engine raises, builder raises}
+    (stub guard; thorough: complete product; quick: complete for "not set", the caller's ids on two header lists); the shapes again under inject / other mode spellings / websocket, with a failing
+    send / a raising application; two instances of the middleware with pieces outside, between and below them."""
+    quick = chk.tier == "quick"
+    S, IN = env_shapes(), inbound_id_headers(600 if quick else 6000)
+    if quick:       # every shape x every inbound list with nothing set by the caller; the caller's ids on two lists
+        prod = itertools.chain(
+            itertools.product(S.items(), IN.items(), (None,), _outcomes()),
+            itertools.product(S.items(), [(k, IN[k]) for k in ("none", "x-request-id")], AMBIENT_IDS[1:], _outcomes()[:3]))
+    else:
+        prod = itertools.product(S.items(), IN.items(), AMBIENT_IDS, _outcomes())
+    for (sname, (pre, inner)), (hname, h), amb, (b, ev, ah) in prod:
+        if sname == "mw" and amb is None:
+            continue                                  # nothing ambient at all: the other families
+        yield _env_case("ambient:" + sname, pre, inner, amb, h, b, ev, ah)
+    for (sname, (pre, inner)), (mode, t), amb, ev in itertools.product(
+            S.items(), (("inject", "http"), ("ENFORCE", "http"), ("enforce", "websocket"), ("enforce", "lifespan")),
+            (None, "amb-1"), (EV_DENY, EV_RAISE)):
+        yield _env_case("ambient:" + sname, pre, inner, amb, IN["x-request-id"], RET4, ev, True, mode=mode, t=t)
+    for (sname, (pre, inner)), ev, sf, ae in itertools.product(
+            S.items(), (EV_ALLOW, EV_DENY), (None, [0, "OSError"], [1, "OSError"]), (None, "KeyError", "CancelledError")):
+        if sf is None and ae is None:
+            continue
+        yield _env_case("ambient:faults", pre, inner, "amb-1" if sname == "mw" else None, IN["x-request-id"], RET4, ev,
+                        True, send_fail=sf, app_exc=ae)
+    # two instances: pieces outside the outer one, between the two, below the inner one
+    outers = ({"mode": "inject", "add_headers": False, "builder": None, "guard": "same"},
+              {"mode": "enforce", "add_headers": True, "builder": RET4, "guard": "own", "eval": EV_ALLOW},
+              {"mode": "enforce", "add_headers": True, "builder": RET4, "guard": "own", "eval": EV_DENY})
+    places = ((1, 0, 0), (0, 1, 0), (1, 1, 0), (0, 0, 1), (1, 1, 1))
+    for o, (po, pb, pi), pieces, ev, ah, hname in itertools.product(
+            outers, places, ([TRACE], [ACCESSLOG], [TRACE, ACCESSLOG]), (EV_ALLOW, EV_DENY), (False, True),
+            ("none", "x-request-id")):
+        o = dict(o)
+        if po:
+            o["pre"] = [dict(p) for p in pieces]
+        yield _env_case("ambient:stack2", pieces if pb else None, pieces if pi else None, None, IN[hname], RET4, ev, ah,
+                        outer=[o])
+
+
+def gen_guard_ambient(chk):
+    """the same over the real Guard: 14 policies / policy sets x 3 requests x add_headers x {TraceIdMiddleware outside;
+    TraceIdMiddleware > AccessLogMiddleware outside; request id set by the caller only} x inbound X-Request-ID."""
+    P, IN = guard_policies(), inbound_id_headers()
+    shapes = (([TRACE], [], None), ([TRACE, ACCESSLOG], [], None), ([], [], "amb-1"), ([ACCESSLOG], [TRACE], "amb-2"))
+    for (pname, (pol, exp)), rname, ah, (pre, inner, amb), hname in itertools.product(
+            P.items(), REQUESTS, (False, True), shapes, ("x-request-id",) if chk.tier == "quick" else ("none", "x-request-id")):
+        c = _env_case("guard_ambient:" + pname, pre, inner, amb, IN[hname], RET4, None, ah)
+        c["guard"] = {"policy": pol, "request": REQUESTS[rname], "expect_allowed": exp[rname]}
+        yield c
+
+
+def _rand_env(rng, case):
+    """random pieces around the instances of a case, a random ambient request id, an inbound id header."""
+    pool = [TRACE, TRACE, ACCESSLOG, TRACE_CORR]
+    pre = [dict(rng.choice(pool)) for _ in range(rng.choice([0, 1, 1, 1, 2, 3]))]
+    inner = [dict(rng.choice(pool)) for _ in range(rng.choice([0, 0, 0, 1, 2]))]
+    if pre:
+        case["pre"] = pre
+    if inner:
+        case["inner"] = inner
+    for l in case.get("outer") or []:
+        if rng.random() < 0.5:
+            l["pre"] = [dict(rng.choice(pool)) for _ in range(rng.choice([1, 1, 2]))]
+    if rng.random() < 0.35 or not (pre or inner):
+        case["ambient"] = {"trace_id": rng.choice(AMBIENT_IDS[1:] + ["amb-%d" % rng.randint(0, 99), _hostile_field_str(rng)])}
+    hs = case["scope"].get("headers")
+    if isinstance(hs, list) and rng.random() < 0.7:
+        name = rng.choice([b"x-request-id", b"X-Request-Id", b"X-REQUEST-ID", b"traceparent", b"x-correlation-id"])
+        val = rng.choice([b"req-%d" % rng.randint(0, 999), b"", TRACEPARENT, b"Forbidden", b'"}', b"\xe9\xff"])
+        as_lists = bool(hs) and isinstance(hs[0], list)
+        case["scope"] = dict(case["scope"], headers=list(hs))
+        case["scope"]["headers"].insert(rng.randint(0, len(hs)), _hdrs([(name, val)], as_lists)[0])
+
+
+def _hostile_field_str(rng):
+    for _ in range(20):
+        v = _hostile_field(rng)
+        if isinstance(v, str) and len(v) < 400:
+            return v
+    return "amb"
+
+
 # ---- the real Guard over a family of small policies
 def _rule(rid, effect, action="read", **kw):
     r = {"id": rid, "effect": effect, "actions": [action], "resource": {"type": "doc"}}
@@ -1694,6 +1943,14 @@ def run(chk):
                 "the real Guard; 21 Decision.challenge values (every documented one, custom, ill-typed) x allowed x "
                 "add_headers x ids x obligations attached, and the real Guard over 20 obligation policies (every "
                 "documented obligation type unmet; http_challenge with 8 schemes) x add_headers x 3 policy shapes; "
+                "the middleware inside the library's other ASGI pieces and under ambient request state: 14 stack shapes "
+                "(TraceIdMiddleware / AccessLogMiddleware outside in both orders, doubled, custom header name, below the "
+                "middleware, both sides, none) x 12 inbound header lists (X-Request-ID in 3 spellings / empty / hostile / "
+                "long, traceparent, both, correlation header, no headers) x request id set by the caller via "
+                "rbacx.logging.context {unset, set, empty, hostile} x {deny, deny+headers, allow, engine raises, builder "
+                "raises}, the shapes under inject / ENFORCE / websocket / lifespan and with failing send / raising "
+                "application, two instances with pieces outside / between / below, 14 policies x 3 requests x add_headers "
+                "x 4 shapes x inbound id over the real Guard — messages observed at the middleware's own boundary; "
                 "then seeded random hostile decisions (non-ASCII, "
                 "quotes, CR/LF, 5000 chars, the word "
                 "Forbidden, None, non-strings, truthy/falsy non-bool `allowed`), hostile modes/scope types, stale or "
@@ -1725,6 +1982,12 @@ def run(chk):
         "scope values are such data or, at the top level of the dict, opaque objects (the "
         "middleware's own guard object, another guard object, a plain object) told apart by identity; objects "
         "nested inside JSON containers are not generated",
+        "the model's inputs are the instance's configuration, the scope, and what its collaborators do: it has no "
+        "ambient input (context variables such as rbacx.logging.context's request id, set by TraceIdMiddleware outside "
+        "or by the caller) and no notion of what wraps it, so the same answer is required under every such environment "
+        "(families ambient:*, guard_ambient:*, hostile:ambient); messages are observed where they leave the instance "
+        "(a recording shim between it and the piece outside it), so the headers the outer pieces add on the way out "
+        "(TraceIdMiddleware: its request-id header) are not part of the observation; the model did not change",
         "a stacked deployment is judged instance by instance: the model is a single instance, its downstream's "
         "behaviour (exception class) is taken from what the next instance was observed to do; the end-to-end reading "
         "(judge_direct) does not use the model",
@@ -1738,6 +2001,7 @@ def run(chk):
              + list(gen_incoming_scope(chk)) + list(gen_stacks(chk)) + list(gen_guard_stacks(chk))
              + list(gen_request_shapes(chk)) + list(gen_histories(chk)) + list(gen_guard_histories(chk))
              + list(gen_challenges(chk)) + list(gen_guard_challenges(chk))
+             + list(gen_ambient(chk)) + list(gen_guard_ambient(chk))
              + list(gen_ood_surrogate(chk)))
     chk.exhaustive = True
     cases += list(gen_hostile(chk, 8000 if quick else 150000))
